@@ -16,7 +16,8 @@ theorem get_set_self {α : Type} {l : List α} {i : Nat} {x y : α} (h : l[i]? =
 
 /-- request `r` is some `q0.decided …` that inherits handler, parameters and retry count of `q` -/
 def DecidedFrom (s : State) (r : Nat) (q : Req) : Prop :=
-  ∃ q0 e c, s.reqs[r]? = some (Req.decided q0 e c) ∧ q0.par = q.par ∧ q0.retries = q.retries ∧ q0.cfg = q.cfg
+  ∃ q0 e c, s.reqs[r]? = some (Req.decided q0 e c) ∧ q0.par = q.par ∧ q0.retries = q.retries ∧ q0.cfg = q.cfg ∧
+    q0.holder = q.holder
 
 theorem decided_start {q : Req} {e : ErrKind} {c : Bool} (h : (q.decided e c).pc ≠ .done) :
     (q.decided e c).pc = .start ∧ (q.decided e c).retries = q.retries + 1 ∧ q.retries < q.par.retries := by
@@ -29,16 +30,46 @@ theorem noUpstream_ok {s : State} {r : Nat} {q : Req} (hq : s.reqs[r]? = some q)
     ∃ s1, step s (.noUpstream r) = some s1 ∧ s1.cfgs = s.cfgs ∧ DecidedFrom s1 r q := by
   refine ⟨{ s with reqs := s.reqs.set r (q.decided q.keepErr (canceled s q.cfg)) }, ?_, rfl, ?_⟩
   · simp only [step, stepNoUpstream, hq, hpc]
-  · exact ⟨q, _, _, get_set_self hq, rfl, rfl, rfl⟩
+  · exact ⟨q, _, _, get_set_self hq, rfl, rfl, rfl, rfl⟩
+
+theorem firstAvailableFrom_mem {p : Params} {s : State} {i : Nat} {ups : List (Key × HostId)} {u : Key × HostId}
+    (h : firstAvailableFrom p s i ups = some u) : u ∈ ups := by
+  induction ups generalizing i with
+  | nil => simp [firstAvailableFrom] at h
+  | cons a as ih =>
+    simp only [firstAvailableFrom] at h
+    split at h
+    · simp at h; subst h; simp
+    · exact List.mem_cons_of_mem _ (ih h)
 
 theorem dispatch_ok {s : State} {r : Nat} {q : Req} (h : HostId) (hq : s.reqs[r]? = some q) (hpc : q.pc = .start)
-    (hd : q.par.dynamic = false) :
+    (hok : dynOk s r q h = true) :
     ∃ s1 q1, step s (.dispatch r h) = some s1 ∧ s1.cfgs = s.cfgs ∧ s1.reqs[r]? = some q1 ∧ q1.pc = .sending h ∧
-      q1.par = q.par ∧ q1.retries = q.retries ∧ q1.cfg = q.cfg := by
+      q1.par = q.par ∧ q1.retries = q.retries ∧ q1.cfg = q.cfg ∧ q1.holder = q.holder := by
   refine ⟨{ s with reqs := s.reqs.set r { q with pc := .sending h, incs := q.incs + 1 },
                    inflight := upd s.inflight h (s.inflight h + 1) },
-          { q with pc := .sending h, incs := q.incs + 1 }, ?_, rfl, get_set_self hq, rfl, rfl, rfl, rfl⟩
-  simp only [step, stepDispatch, hq, hpc, dynOk, hd]; rfl
+          { q with pc := .sending h, incs := q.incs + 1 }, ?_, rfl, get_set_self hq, rfl, rfl, rfl, rfl, rfl⟩
+  show stepDispatch s r h = some _
+  unfold stepDispatch
+  rw [hq]
+  simp only []
+  split
+  · simp [hok]
+  · simp_all
+
+/-- static upstreams are used: the handler has no dynamic source, or the source failed in this
+    iteration (no holder) and the upstream is one of the handler's own -/
+theorem dynOk_static {s : State} {r : Nat} {q : Req} {cs : CfgSt} {u : Key × HostId}
+    (hm : q.par.dynamic = false ∨ q.holder = none) (hcs : s.cfgs[q.cfg]? = some cs) (hu : u ∈ cs.ups) :
+    dynOk s r q u.2 = true := by
+  simp only [dynOk]
+  cases hd : q.par.dynamic with
+  | false => simp
+  | true =>
+    rcases hm with hm | hm
+    · simp [hd] at hm
+    · simp only [if_true, hm, hcs, List.any_eq_true]
+      exact ⟨u, hu, by simp⟩
 
 /-- a refused dial / upstream error from `sending`: finish, after, (spawn) all succeed and leave
     the request decided -/
@@ -74,7 +105,7 @@ theorem endAttempt_fail_ok {s : State} {r : Nat} {q : Req} {h : HostId} {out : O
       simp only [step, stepSpawn, hqb, hlog, hpcb, hok, if_true]; rfl
     refine ⟨sc, ?_, rfl, ?_⟩
     · simp only [endAttempt, h1, h2, spawnLast, hsp, if_true, h3]
-    · exact ⟨qb, _, _, get_set_self hqb, rfl, rfl, rfl⟩
+    · exact ⟨qb, _, _, get_set_self hqb, rfl, rfl, rfl, rfl⟩
   · -- countFailure is a no-op: straight to tryAgain, nothing to spawn
     have hc' : qa.par.counting = false := by simpa using hc
     let sb : State := { sa with reqs := sa.reqs.set r (qa.decided out.errKind (canceled sa qa.cfg)) }
@@ -86,23 +117,23 @@ theorem endAttempt_fail_ok {s : State} {r : Nat} {q : Req} {h : HostId} {out : O
       rcases decided_pc qa out.errKind (canceled sa qa.cfg) with hp | hp <;> simp [hp]
     refine ⟨sb, ?_, rfl, ?_⟩
     · simp only [endAttempt, h1, h2, spawnLast, hsp]; rfl
-    · exact ⟨qa, _, _, hqb, rfl, rfl, rfl⟩
+    · exact ⟨qa, _, _, hqb, rfl, rfl, rfl, rfl⟩
 
 theorem isDone_false_start {s : State} {r : Nat} {q : Req} (hd : DecidedFrom s r q) (hnd : isDone s r = false) :
     ∃ q1, s.reqs[r]? = some q1 ∧ q1.pc = .start ∧ q1.par = q.par ∧ q1.cfg = q.cfg ∧
-      q1.retries = q.retries + 1 ∧ q.retries < q.par.retries := by
-  obtain ⟨q0, e, c, hq, hp, hr, hc⟩ := hd
+      q1.retries = q.retries + 1 ∧ q.retries < q.par.retries ∧ q1.holder = q.holder := by
+  obtain ⟨q0, e, c, hq, hp, hr, hc, hh⟩ := hd
   have hne : (q0.decided e c).pc ≠ .done := by
     intro h; simp [isDone, pcOf, hq, h] at hnd
   obtain ⟨h1, h2, h3⟩ := decided_start hne
-  exact ⟨_, hq, h1, by simp [hp], by simp [hc], by omega, by rw [← hr, ← hp]; exact h3⟩
+  exact ⟨_, hq, h1, by simp [hp], by simp [hc], by omega, by rw [← hr, ← hp]; exact h3, by simp [hh]⟩
 
 /-- **advance_never_runs_out_of_fuel** — from the top of the proxy loop, with the request's
     handler present, `advance` succeeds whenever `fuel > retries still allowed`; the wire syntax
     limits `retries` to 8 and the driver passes `fuel0 = 12`. -/
 theorem advance_never_runs_out_of_fuel (fuel : Nat) (d : DState) (r : Nat) (q : Req)
     (hq : d.s.reqs[r]? = some q) (hpc : q.pc = .start) (hcfg : ∃ cs, d.s.cfgs[q.cfg]? = some cs)
-    (hdyn : q.par.dynamic = false)
+    (hdyn : q.par.dynamic = false ∨ q.holder = none)
     (hf : q.par.retries - q.retries + 1 ≤ fuel) : (advance fuel d r).isSome = true := by
   induction fuel generalizing d q with
   | zero => omega
@@ -117,10 +148,11 @@ theorem advance_never_runs_out_of_fuel (fuel : Nat) (d : DState) (r : Nat) (q : 
       · rfl
       next hnd =>
         have hnd' : isDone s1 r = false := by simpa using hnd
-        obtain ⟨q1, hq1, hp1, hpar, hcf, hr1, hlt⟩ := isDone_false_start hd1 hnd'
-        exact ih { d with s := s1 } q1 hq1 hp1 ⟨cs, by simp only [hc1, hcf]; exact hcs⟩ (by rw [hpar]; exact hdyn) (by rw [hpar, hr1]; omega)
+        obtain ⟨q1, hq1, hp1, hpar, hcf, hr1, hlt, hho⟩ := isDone_false_start hd1 hnd'
+        exact ih { d with s := s1 } q1 hq1 hp1 ⟨cs, by simp only [hc1, hcf]; exact hcs⟩ (by rw [hpar, hho]; exact hdyn) (by rw [hpar, hr1]; omega)
     next u hsel =>
-      obtain ⟨s1, q1, h1, hc1, hq1, hp1, hpar1, hr1, hcf1⟩ := dispatch_ok u.2 hq hpc hdyn
+      obtain ⟨s1, q1, h1, hc1, hq1, hp1, hpar1, hr1, hcf1, hho1⟩ :=
+        dispatch_ok u.2 hq hpc (dynOk_static hdyn hcs (firstAvailableFrom_mem hsel))
       simp only [h1]
       split
       · obtain ⟨s2, h2, hc2, hd2⟩ := endAttempt_fail_ok (out := .dialRefused) hq1 hp1 rfl
@@ -129,9 +161,9 @@ theorem advance_never_runs_out_of_fuel (fuel : Nat) (d : DState) (r : Nat) (q : 
         · rfl
         next hnd =>
           have hnd' : isDone s2 r = false := by simpa using hnd
-          obtain ⟨q2, hq2, hp2, hpar, hcf, hr2, hlt⟩ := isDone_false_start hd2 hnd'
+          obtain ⟨q2, hq2, hp2, hpar, hcf, hr2, hlt, hho⟩ := isDone_false_start hd2 hnd'
           exact ih { d with s := s2 } q2 hq2 hp2 ⟨cs, by simp only [hc2, hc1, hcf, hcf1]; exact hcs⟩
-            (by rw [hpar, hpar1]; exact hdyn)
+            (by rw [hpar, hpar1, hho, hho1]; exact hdyn)
             (by rw [hpar, hr2, hpar1, hr1]; rw [hpar1, hr1] at hlt; omega)
       · rfl
 
